@@ -69,7 +69,7 @@ P = {
 }
 
 # properties whose slice is being adapted to a fix: commit in /repo (not claimed until green again)
-HOLD = {"C08"}
+HOLD = set()
 
 def main():
     for h in HOLD:
